@@ -117,6 +117,22 @@ theorem extractF_props (f : Fmt) (t : List Char) :
     simp only [after] at hf ⊢
     simp [IStream.good, hf, he]
 
+/-- `extractF_never_invalid`: whatever the text and the flags, the string handed to mpf_set_str is one it accepts: the
+    ASSERT_NOCARRY of ismpf.cc:130 cannot fire, the destination is either untouched (failbit) or holds the converted value. -/
+theorem extractF_never_invalid (f : Fmt) (t : List Char) (f0 : Mpf.F) : (extractF (mkG t [] f) f0).2.2 = false := by
+  rw [extractF_spec]
+  unfold specF specScanF
+  simp only []
+  cases h : (floatSpec (t.drop (wsPrefix f t).length)).text with
+  | none => rfl
+  | some s =>
+    have hp := parse_scanned _ s h
+    obtain ⟨p, hq⟩ := Option.ne_none_iff_exists'.mp hp
+    simp [MpfStr.set_str, hq]
+
+example : (extractF (mkG "-.5e-3,".toList [] {}) ⟨2, 1, 1, [5]⟩).2.2 = false ∧ (extractF (mkG "-.5e-3,".toList [] {}) ⟨2, 1, 1, [5]⟩).2.1 ≠ none := by
+  decide +kernel
+
 /-! ## (b) round trips -/
 
 section
@@ -248,6 +264,14 @@ theorem insertF_layout (o : OStream) (f : Mpf.F) :
   unfold insertFG doprntMpfG mpfPieces specInsertF
   simp only [hw]
   rw [emitPieces_layout, piecesOf_sign, piecesOf_showbase, piecesOf_body]
+
+/-- `insertF_sign`: the sign flag of `insertF_layout` is that of the operand: "-" is written exactly for negative values — also
+    when the fixed format rounds all digits away ("-0.00") —, "+" under showpos for the others, zero included. -/
+theorem insertF_sign (o : OStream) (f : Mpf.F) : (mpfDigits (paramsFromIos o).1 f).neg = decide (f.size < 0) :=
+  mpfDigits_neg _ f
+
+example : (insertFG { fmt := { fixed := true, showpos := true }, precision := 2 } ⟨2, -1, 0, [1]⟩).out = "-0.00".toList ∧
+    (insertFG { fmt := { fixed := true, showpos := true }, precision := 2 } ⟨2, 0, 0, []⟩).out = "+0.00".toList := by decide +kernel
 
 -- non-vacuity: 255/16 = 15.9375 = f.f (hex); scientific hex with '@' and a decimal exponent; octal with showbase; general
 example : (insertFG { fmt := { dec := false, hex := true, fixed := true }, precision := 3 } ⟨2, 2, 1, [0xf000000000000000, 0xf]⟩).out = "f.f00".toList ∧
